@@ -456,6 +456,12 @@ func (fx *FnCtx) evalField(env *Env, x *SField) SV {
 							}
 							return fx.constSV(c)
 						}
+						if _, ok := o.(*types.Var); ok {
+							// a package-level variable of another package (io.EOF): its current value
+							if g, ok := p.Members[x.Name].(*ssa.Global); ok {
+								return SV{V: fx.globalValue(env.st, g)}
+							}
+						}
 					}
 				}
 			}
